@@ -93,6 +93,9 @@ CLAIMS = {
 }
 
 NOT_YET = {
+ "C10": "not applicable with contract-based deductive verification as built here: the property quantifies over scheduler interleavings of the reader goroutine, 25 parser goroutines and the consumer, over all partitions of the byte stream into reads and over connection failures; util/stream.go consists of goroutines, channels and select, which are outside the verifier's subset (reported out-of-subset, not skipped), and a per-function contract cannot state 'for every interleaving'. The sequential facts it rests on are proved under other properties (parsed messages do not alias the recycled buffer: C12; frames are exactly size bytes with a correct length prefix: C01/C06) but composing them with channel semantics is an argument, not a check (DESIGN.md section 5).",
+ "C11": "not applicable: all schedules of any number of producer goroutines and the writer goroutine; the outbound path is a range over a channel in a goroutine (outside the subset). What is sequential about it - one message's encoding is exactly size bytes, is produced by one MarshalBinary call and is not changed by encoding - is proved by C01/C06/C13; the per-producer FIFO order is a property of Go channels that a contract would have to assume wholesale (DESIGN.md section 5).",
+ "C17": "not applicable: NewMatchField computes value and mask with math/big (Lsh, And, Cmp, BitLen, FillBytes) on fields of 48 to 128 bits and beyond; the verifier's term language is fixed-width bit-vectors of at most 64 bits with 64-bit constants, so every part of the property (window placement, mask = exactly the window, oversize input is an error) would sit inside assumed contracts for big.Int and nothing would be proved about the real code (DESIGN.md section 5). The 32-bit register constructor it is compared with is covered by C15/C16.",
 }
 
 def main():
@@ -114,7 +117,7 @@ def main():
                 "technique": c["technique"],
             })
         else:
-            na.append({"property_id": pid, "reason": NOT_YET.get(pid, "not claimed yet: contracts for this property are not written/discharged at this commit (build in progress, see DESIGN.md section 7)")})
+            na.append({"property_id": pid, "reason": NOT_YET.get(pid, "not claimed (see DESIGN.md section 5)")})
     m = {
         "version": 1,
         "setup_cmd": "cd /verif/govc && GOFLAGS=-mod=mod GOPROXY=off GOSUMDB=off GOTOOLCHAIN=local go build -o /verif/bin/govc .",
